@@ -208,6 +208,10 @@ class Check:
     def require(self, cond: bool, msg: str) -> None:
         """Anti-vacuity assertion: failing it is an internal error of the check, not a verdict."""
         if not cond:
+            if self.n_viol:
+                # the run already has a verdict; lost coverage is then a consequence of the violation, not a harness fault
+                print('note: self-check skipped after violations: ' + msg, file=sys.stderr)
+                return
             self.internal('vacuity/self-check failed: ' + msg)
 
 
